@@ -11,10 +11,11 @@ structure GEnv where
   acts : Array Act
   nrules : Nat
   bpop : Nat
+  fpop : Nat
   jmp : Nat
   customOp : Nat
 
-def Env.genv (env : Env) : GEnv := { acts := env.acts, nrules := env.rules.size, bpop := env.bpop, jmp := env.jmp, customOp := env.customOp }
+def Env.genv (env : Env) : GEnv := { acts := env.acts, nrules := env.rules.size, bpop := env.bpop, fpop := env.fpop, jmp := env.jmp, customOp := env.customOp }
 
 structure Gate where
   flag : FlagId
@@ -49,7 +50,7 @@ end
 def effSafe (ge : GEnv) (g : Gate) : Eff → Bool
   | .emit op => !g.gated op
   | .loopBegin | .loopEnd | .codePush | .codePop | .flagsPush | .flagsPop | .addErr | .flagsSwitch => true
-  | .breakCont => !g.gated ge.bpop && !g.gated ge.jmp
+  | .breakCont => !g.gated ge.bpop && !g.gated ge.fpop && !g.gated ge.jmp
   | .setFlag f v => f != g.flag || v == g.blocked
   | .consumeCustom => true
   | .commitCustom => !g.gated ge.customOp
@@ -337,10 +338,12 @@ theorem runEff_good (env : Env) (g : Gate) (e : Eff) (s : PState) (hs : effSafe 
     · exact ⟨h.cfg, h.stack, h.trace, h.m1, h.m2⟩
     · refine ⟨h.cfg, h.stack, ?_, h.m1, h.m2⟩
       intro o ho
-      simp only [List.mem_cons, List.mem_append, List.mem_replicate] at ho
-      rcases ho with ho | ⟨_, ho⟩ | ho
+      simp only [List.mem_cons, List.mem_append, List.mem_reverse, List.mem_map] at ho
+      rcases ho with ho | ⟨b, _, ho⟩ | ho
       · subst ho; exact hs.2
-      · subst ho; exact hs.1
+      · cases b
+        · simp at ho; subst ho; exact hs.1.2
+        · simp at ho; subst ho; exact hs.1.1
       · exact h.trace o ho
   | flagsPush =>
     refine ⟨h.cfg, ?_, h.trace, h.m1, h.m2⟩
